@@ -128,7 +128,9 @@ C07 == \A F \in Fs : LET R == Run(srcs, prog, F) IN
 C06 == LET R == Run(srcs, prog, {}) IN
          \A p \in Exec(R) : LET s == StmtAt(p) IN
             IF ExpectTE(R, p) THEN ResAt(R, p) = "TE"
-            ELSE IF s.op = "chg" THEN ResAt(R, p) = "UE"     \* C14: a changed argument is a usage error
+            ELSE IF s.op = "chg"       \* C14: a changed argument is a usage error (only hand-written parts can change)
+                 THEN ResAt(R, p) = (IF srcs[s.site].def /\ \E j \in DOMAIN srcs[s.site].e : ~srcs[s.site].e[j].canon
+                                     THEN "UE" ELSE "-")
             ELSE (s.op # "none" /\ srcs[s.site].def /\ (KindOfStmtOp(s.op) # "dict" \/ HasKey(srcs[s.site].e, s.k)))
                     => ResAt(R, p) = B2S(HoldsStmt(s, srcs[s.site]))
 (* C05 *)
